@@ -52,20 +52,32 @@ Qed.
 
 (** splitText: x (a text node, child i of p) split at off, tail in nw *)
 Ltac fin_eqb := repeat match goal with |- context [?a =? ?b] => destruct (Nat.eqb_spec a b); subst end;
-                 cbn [andb fst snd]; try reflexivity; try congruence; try (exfalso; lia).
+                 simpl; try reflexivity; try congruence; try (exfalso; lia).
+
+Definition mb_split (f : forest) (p i x nw off : nat) (b : bpoint) : bpoint :=
+  let s := (x =? fst b) && m_is_cd f (fst b) && (off <? snd b) in
+  let c1 := if s then nw else fst b in
+  let o1 := if s then snd b - off else snd b in
+  (c1, if (c1 =? p) && (o1 =? S i) then S o1 else o1).
+
+Lemma split_pointwise : forall f x nw off p i b, m_is_cd f x = true -> nw <> p -> x <> p ->
+  mb_split f p i x nw off b = bp_split_parent p i (bp_split x nw off b).
+Proof.
+  intros f x nw off p i [c o] Hcd Hne Hxp. unfold mb_split, bp_split_parent, bp_split. cbn [fst snd].
+  rewrite (Nat.eqb_sym c x).
+  destruct (Nat.eqb_spec x c) as [E|E]; [subst c; rewrite Hcd|]; destruct (off <? o); simpl; fin_eqb.
+Qed.
 
 Lemma split_is_spec : forall fx f x nw off p r, fx_split fx = true -> m_is_cd f x = true -> m_parent f x = Some p ->
   nw <> p -> x <> p ->
   to_range (mr_upd_split fx f x nw off r) =
   r_map (bp_split_parent p (m_index_of f x p)) (r_map (bp_split x nw off) (to_range r)).
 Proof.
-  intros fx f x nw off p [sc so ec eo] Hfx Hcd Hp Hne Hxp.
-  unfold mr_upd_split, to_range, r_map, bp_split, bp_split_parent. cbn [mr_sc mr_so mr_ec mr_eo r_s r_e fst snd].
-  rewrite Hfx, Hp. cbn [mr_sc mr_so mr_ec mr_eo].
-  set (i := m_index_of f x p). clearbody i.
-  destruct (Nat.eqb_spec x sc) as [E1|E1]; destruct (Nat.eqb_spec x ec) as [E2|E2]; cbn [andb];
-    try subst sc; try subst ec; try rewrite Hcd; cbn [andb];
-    destruct (off <? so); destruct (off <? eo); cbn [fst snd]; fin_eqb.
+  intros fx f x nw off p r Hfx Hcd Hp Hne Hxp.
+  transitivity (r_map (mb_split f p (m_index_of f x p) x nw off) (to_range r)).
+  - destruct r as [sc so ec eo]. unfold mr_upd_split, to_range, r_map, mb_split. cbn [mr_sc mr_so mr_ec mr_eo r_s r_e fst snd].
+    rewrite Hfx, Hp. reflexivity.
+  - unfold r_map. cbn [r_s r_e]. rewrite !split_pointwise by assumption. reflexivity.
 Qed.
 
 (** removal of x = child k of p: the model climbs from the container with isAncestorOf; given that this climb
@@ -171,4 +183,33 @@ Proof.
   destruct toStart; unfold range_ok_parts; cbn [r_s r_e].
   - split; [exact H1|]. split; [exact H1|]. exists Eq. split; [exact (bp_cmp_refl m _ ps Es)|discriminate].
   - split; [exact H2|]. split; [exact H2|]. exists Eq. split; [exact (bp_cmp_refl m _ pe Ee)|discriminate].
+Qed.
+
+(* ---------------------------------------------------------------------------------------------------------- *)
+(** * the code as it is (F28 not repaired): splitText follows the rule except for boundary points sitting in the
+      parent directly behind the split node *)
+Lemma split_as_is : forall fx f x nw off r, fx_split fx = false -> m_is_cd f x = true ->
+  to_range (mr_upd_split fx f x nw off r) = r_map (bp_split x nw off) (to_range r).
+Proof.
+  intros fx f x nw off [sc so ec eo] Hfx Hcd. unfold mr_upd_split, to_range, r_map, bp_split. cbn [mr_sc mr_so mr_ec mr_eo r_s r_e fst snd].
+  rewrite Hfx. cbn [mr_sc mr_so mr_ec mr_eo].
+  rewrite (Nat.eqb_sym sc x), (Nat.eqb_sym ec x).
+  destruct (Nat.eqb_spec x sc) as [E1|E1]; destruct (Nat.eqb_spec x ec) as [E2|E2]; cbn [andb];
+    try subst sc; try subst ec; try rewrite Hcd; cbn [andb]; destruct (off <? so); destruct (off <? eo); reflexivity.
+Qed.
+Lemma split_parent_id : forall p i b, b <> (p, S i) -> bp_split_parent p i b = b.
+Proof.
+  intros p i [c o] H. unfold bp_split_parent. cbn [fst snd].
+  destruct (Nat.eqb_spec c p) as [E1|E1]; destruct (Nat.eqb_spec o (S i)) as [E2|E2]; cbn [andb]; try reflexivity.
+  subst. exfalso. apply H. reflexivity.
+Qed.
+Lemma split_is_spec_guarded : forall fx f x nw off p i r, fx_split fx = false -> m_is_cd f x = true ->
+  r_s (r_map (bp_split x nw off) (to_range r)) <> (p, S i) ->
+  r_e (r_map (bp_split x nw off) (to_range r)) <> (p, S i) ->
+  to_range (mr_upd_split fx f x nw off r) = r_map (bp_split_parent p i) (r_map (bp_split x nw off) (to_range r)).
+Proof.
+  intros fx f x nw off p i r Hfx Hcd Hs He. rewrite (split_as_is fx f x nw off r Hfx Hcd).
+  set (r' := r_map (bp_split x nw off) (to_range r)) in *.
+  destruct r' as [s e]. cbn [r_s r_e] in Hs, He. unfold r_map. cbn [r_s r_e].
+  rewrite (split_parent_id p i s Hs), (split_parent_id p i e He). reflexivity.
 Qed.
